@@ -20,7 +20,9 @@ import Verif.Model.Validity
     sshp … same with kva=<TD> kvb=<TD> (token options) instead of tva/tvb
         -> `ok va=<u64> vb=<u64>` | `rej:<status>:<stage>` | `crash`
     xrenew casnow=<time> bd= onb=<time> ona=<time>    -> `ok d=<seconds> nboff=<ns>` | `rej:500:cas`
-    sshrenew anow=<time> bd= ova=<u64> ovb=<u64> ct=  -> `ok d=<u64> vaoff=<int>` | `rej:400:renew` | `crash`
+    sshrenew anow=<time> bd= ova=<u64> ovb=<u64> ct=  -> `ok d=<u64> vaoff=<int>` | `rej` | `crash`
+    sshrekey … g= p= pnow=<time>                      -> same, after the SSHPOP validators
+    (x509 / sshp lines carrying e2e=1 print only `ok …` | `rej` | `crash`; `skip …` -> `skip`)
     acme now=<time> def= rnb=<time> rna=<time>        -> `nb=<time> na=<time>`
     overflow lo=<int> hi=<int> k=<int>                 -> the k-th wrap witness (seconds) for [lo,hi], see below
 -/
@@ -78,7 +80,7 @@ def rejS : Rej → String
   | .credNotBefore => "403:mod" | .credNotAfter => "403:mod"
   | .past => "400:val" | .naBeforeNb => "400:val" | .tooShort => "403:val" | .tooLong => "403:val"
   | .lifetime0 => "500:cas"
-  | .afterGtBefore => "400:mv"
+  | .afterGtBefore => "400:mv" | .mvEpoch => "400:mv" | .tokEpoch => "400:auth"
   | .badType => "0:mod"
   | .typeUnset => "400:val" | .typeUnknown => "400:val" | .vaZero => "400:val" | .vbBeforeVa => "400:val"
   | .dvaZero => "403:dval" | .dpast => "403:dval" | .dvbBeforeVa => "403:dval" | .dbadType => "403:dval"
@@ -87,6 +89,12 @@ def rejS : Rej → String
 def outS {α : Type} (f : α → String) : Out α → String
   | .ok a => "ok " ++ f a
   | .rej r => "rej:" ++ rejS r
+  | .crash => "crash"
+
+/-- end-to-end stages see only accept / refuse / abort -/
+def e2eS {α : Type} (f : α → String) : Out α → String
+  | .ok a => "ok " ++ f a
+  | .rej _ => "rej"
   | .crash => "crash"
 
 def claimer? (kv : List (String × String)) : Option Claimer := do
@@ -130,15 +138,16 @@ def eval (line : String) : Option String := do
     let c : Cert := ⟨(← time? (← get "cnb")), (← time? (← get "cna"))⟩
     let now ← time? (← get "now")
     let vnow ← time? (← get "vnow")
+    let e2e := (get "e2e") = some "1"
     match x509Leaf cl m now vnow c so with
     | .ok leaf =>
       let head := s!"ok nb={timeS leaf.nb} na={timeS leaf.na}"
       if (get "cas") = some "1" then
         match softcasCreate now leaf so.backdate with
-        | .ok c => pure (head ++ s!" cert={c.nb / second},{c.na / second}")
-        | r => pure (outS (fun _ => "") r)
+        | .ok c => pure ((if e2e then "ok" else head) ++ s!" cert={c.nb / second},{c.na / second}")
+        | r => pure ((if e2e then e2eS else outS) (fun _ => "") r)
       else pure head
-    | r => pure (outS (fun _ => "") r)
+    | r => pure ((if e2e then e2eS else outS) (fun _ => "") r)
   | "ssh" | "sshp" =>
     let cl ← claimer? kv
     let mode ← get "mode"
@@ -153,17 +162,22 @@ def eval (line : String) : Option String := do
              else do
                let tok : SshOpts := { va := (← td? (← get "kva")), vb := (← td? (← get "kvb")) }
                pure (sshSign cl m now user tok c0))
-    pure (outS (fun c => s!"va={c.va.toNat} vb={c.vb.toNat}") r)
+    pure ((if (get "e2e") = some "1" then e2eS else outS) (fun c => s!"va={c.va.toNat} vb={c.vb.toNat}") r)
+  | "skip" => pure "skip"
   | "xrenew" =>
     let casnow ← time? (← get "casnow")
     let bd ← int? (← get "bd")
     let old : Cert := ⟨(← time? (← get "onb")), (← time? (← get "ona"))⟩
     pure (outS (fun c => s!"d={(c.na - c.nb) / second} nboff={c.nb - trunc (casnow - bd)}") (x509Renew casnow bd old))
-  | "sshrenew" =>
+  | "sshrenew" | "sshrekey" =>
     let anow ← time? (← get "anow")
     let bd ← int? (← get "bd")
     let old : SshCert := ⟨(← u64? (← get "ova")), (← u64? (← get "ovb")), (← (← get "ct").toNat?)⟩
-    pure (outS (fun c => s!"d={(c.vb - c.va).toNat} vaoff={(c.va.toNat : Int) - unixOf (anow - bd)}") (sshRenewDates anow bd old))
+    let r ← (if op = "sshrenew" then pure (sshRenewDates anow bd old)
+             else do
+               let cl ← claimer? kv
+               pure (sshRekey cl anow (← time? (← get "pnow")) bd old))
+    pure (e2eS (fun c => s!"d={(c.vb - c.va).toNat} vaoff={(c.va.toNat : Int) - unixOf (anow - bd)}") r)
   | "acme" =>
     let now ← time? (← get "now")
     let o := acmeOrderDates now (← int? (← get "def")) (← time? (← get "rnb")) (← time? (← get "rna"))
